@@ -135,7 +135,7 @@ def run(ctx: Ctx) -> None:
             d = HDict()
             d["type"] = "string"
             d["metadata"] = md
-            return pai.Inst("validator.Validator"), [d, v], {}
+            return models.construct(e, "validator.Validator"), [d, v], {}
 
         # explore() clears BOUNDS before make_args, so build inside make
         outs = I.explore(fnq, make)
@@ -152,13 +152,13 @@ def run(ctx: Ctx) -> None:
                 md["maxVersion"] = 7.0
             d = HDict()
             d["metadata"] = md
-            return pai.Inst("validator.Validator"), [d, v], {}
+            return models.construct(e, "validator.Validator"), [d, v], {}
 
         outs = I.explore(fnq, make2)
         got = [o.value for o in outs if o.kind == "return"]
         ctx.check(got == [want], "R1", f"min {'set' if has_min else 'absent'}, max {'set' if has_max else 'absent'}, extreme version {v}", repo.loc("validator", repo.func(fnq)), f"-> {want}", f"is_valid_for_version returns {got} for version {v} (expected {want}): an absent bound must not restrict")
     # an entry without metadata is always valid
-    outs = I.explore(fnq, lambda: (pai.Inst("validator.Validator"), [HDict({"type": "string"}), SNum.sym("v", 0, None, True)], {}))
+    outs = I.explore(fnq, lambda: (models.construct(e, "validator.Validator"), [HDict({"type": "string"}), SNum.sym("v", 0, None, True)], {}))
     ctx.check(len(outs) == 1 and outs[0].value is True, "R1", "unannotated entry", repo.loc("validator", repo.func(fnq)), "always valid", f"an unannotated entry yields {[o.value for o in outs]}")
 
     # ---- R0 annotations must be visible to the pruning ------------------------------------------------
@@ -195,7 +195,7 @@ def run(ctx: Ctx) -> None:
                 return fresh.expanded_type(name) if name in fresh.type_files else fresh.expanded(name + ".json")
 
             I2 = e.interp(stubs={"validator.Validator.get_expanded_schema": expanded_stub}, allow_fork=False, max_depth=80, max_steps=5_000_000)
-            outs = I2.explore("validator.Validator.get_versioned_schema", lambda: (pai.Inst("validator.Validator"), [v, root], {}))
+            outs = I2.explore("validator.Validator.get_versioned_schema", lambda: (models.construct(e, "validator.Validator"), [v, root], {}))
             if len(outs) != 1 or outs[0].kind != "return":
                 ctx.finding("R2", f"root {root} version {v}", "mappyfile/validator.py", f"get_versioned_schema fails: {[(o.kind, o.exc, o.value) for o in outs]}")
                 continue
@@ -275,13 +275,13 @@ def run(ctx: Ctx) -> None:
 
     I4 = e.interp(stubs={"validator.Validator.get_versioned_properties": gvp, "validator.Validator.get_expanded_schema": ges}, allow_fork=False)
     rec.clear()
-    I4.explore("validator.Validator.get_versioned_schema", lambda: (pai.Inst("validator.Validator"), [7.6, "layer"], {}))
+    I4.explore("validator.Validator.get_versioned_schema", lambda: (models.construct(e, "validator.Validator"), [7.6, "layer"], {}))
     a, k = rec.get("ges_args", ([], {}))
     passed_version = (len(a) > 1 and a[1] == 7.6) or k.get("version") == 7.6
     passed_name = (a and a[0] == "layer") or k.get("schema_name") == "layer"
     ctx.check(passed_version and passed_name and rec.get("props") is rec.get("schema", {}).get("properties") and rec.get("version") == 7.6, "R3", "get_versioned_schema prunes the object cached for (name, version)", repo.loc("validator", repo.func("validator.Validator.get_versioned_schema")), "", f"get_versioned_schema requests the expanded schema with {rec.get('ges_args')} and prunes {'another object' if rec.get('props') is not rec.get('schema', {}).get('properties') else 'it'} for version {rec.get('version')}")
     rec.clear()
-    I4.explore("validator.Validator.get_versioned_schema", lambda: (pai.Inst("validator.Validator"), [None, "map"], {}))
+    I4.explore("validator.Validator.get_versioned_schema", lambda: (models.construct(e, "validator.Validator"), [None, "map"], {}))
     ctx.check("props" not in rec, "R3", "no pruning without a version", repo.loc("validator", repo.func("validator.Validator.get_versioned_schema")), "", "the version-less schema is pruned")
     # validate(): versioned validator iff version given
     vfn = repo.func("validator.Validator.validate")
@@ -298,7 +298,7 @@ def run(ctx: Ctx) -> None:
             return SObj("Validator", {})
 
         Iv = e.interp(stubs={"validator.Validator.get_versioned_schema": gvs, "validator.Validator.get_schema_validator": gsv, "validator.Validator._get_errors": lambda *a: [], "ext:jsonschema.Draft4Validator": lambda fr, so, a, k: SObj("Validator", {})}, allow_fork=False)
-        outs = Iv.explore("validator.Validator.validate", lambda ver=ver: (pai.Inst("validator.Validator"), [HDict({"__type__": "layer"})], {"version": ver} if ver is not None else {}))
+        outs = Iv.explore("validator.Validator.validate", lambda ver=ver: (models.construct(e, "validator.Validator"), [HDict({"__type__": "layer"})], {"version": ver} if ver is not None else {}))
         if len(outs) != 1 or outs[0].kind != "return":
             raise AnalysisError(f"validate(version={ver}) not evaluable: {[(o.kind, o.exc) for o in outs]}")
         if ver is None:
